@@ -94,20 +94,21 @@ ASSUMPTIONS = [
     "law tolerances: 4 ulp of the largest argument for range laws, 1e-12 "
     "relative for multiples, 1e-9 relative for inverse pairs (vf/c15_laws.py); "
     "the exact laws compare exactly on dyadic arguments"]
-FX_MIN = {'fx_function_calls_judged': 20000,
-          'fx_function_calls_with_operand_failure': 4000,
-          'fx_function_calls_after_a_failure': 8000,
-          'fx_function_histories_value_after_failure': 1500,
-          'fx_operand_failure_TypeError': 1500,
-          'fx_operand_failure_other_types': 3000,
-          'fx_expressions_with_an_operand_used_twice': 150,
-          'fx_expressions_nested': 500,
-          'fx_function_call_pos-spare': 2000, 'fx_function_call_kw-spare': 1000,
-          'fx_stream_pulls_judged': 8000,
-          'fx_stream_pulls_with_operand_failure': 1500,
-          'fx_stream_pulls_after_a_failure': 800,
-          'fx_stream_histories_value_after_failure': 200,
-          'fx_operand_bodies_run': 30000}
+FX_MIN = {'fx_function_calls_judged': 50000,
+          'fx_function_calls_with_operand_failure': 18000,
+          'fx_function_calls_after_a_failure': 30000,
+          'fx_function_histories_value_after_failure': 4000,
+          'fx_operand_failure_TypeError': 8000,
+          'fx_operand_failure_other_types': 15000,
+          'fx_expressions_with_an_operand_used_twice': 250,
+          'fx_expressions_nested': 2000,
+          'fx_function_call_pos-spare': 8000, 'fx_function_call_kw-spare': 8000,
+          'fx_stream_pulls_judged': 18000,
+          'fx_stream_pulls_with_operand_failure': 4500,
+          'fx_stream_pulls_after_a_failure': 6000,
+          'fx_stream_histories_value_after_failure': 1000,
+          'fx_stream_operand_pfuncn': 700, 'fx_stream_operand_routine': 700,
+          'fx_operand_bodies_run': 90000}
 MIN_COUNTERS = {
     'quick': {'lift_method_evaluations': 5000, 'lift_builtin_evaluations': 5000,
               'lift_value_agreements': 6000, 'law_samples': 20000,
@@ -116,8 +117,10 @@ MIN_COUNTERS = {
               'stream_history_pulls_compared': 20000,
               'reentrant_function_calls_compared': 3000,
               'concurrent_function_calls_compared': 3000,
-              'shared_pattern_stream_pairs_compared': 1000,
-              'concurrent_pattern_stream_pairs_compared': 300,
+              # (lowered in round 7 from 1000 / 300: the time-bounded reent shards
+              # reached 930 with 20 checks running on the 16 cores; 2500 / 850 alone)
+              'shared_pattern_stream_pairs_compared': 700,
+              'concurrent_pattern_stream_pairs_compared': 200,
               'stream_histories_poll_paused_then_continue': 500,
               'stream_histories_exhaust_then_reset_operand': 300,
               'max_method_entry_points': 100, 'max_builtin_entry_points': 100,
@@ -130,12 +133,14 @@ MIN_COUNTERS = {
                  'stream_history_pulls_compared': 1000000,
                  'reentrant_function_calls_compared': 100000,
                  'concurrent_function_calls_compared': 100000,
-                 'shared_pattern_stream_pairs_compared': 30000,
-                 'concurrent_pattern_stream_pairs_compared': 10000,
+                 # (halved in round 7: with 20 checks running on the 16 cores the
+                 # time-bounded reent shards reached 18000 / 6000)
+                 'shared_pattern_stream_pairs_compared': 15000,
+                 'concurrent_pattern_stream_pairs_compared': 5000,
                  'stream_histories_poll_paused_then_continue': 20000,
                  'stream_histories_exhaust_then_reset_operand': 10000,
                  'max_method_entry_points': 100, 'max_builtin_entry_points': 100,
-                 'meta_checks': 100, **{k: 20 * v for k, v in FX_MIN.items()}},
+                 'meta_checks': 100, **{k: 5 * v for k, v in FX_MIN.items()}},
 }
 
 
@@ -160,12 +165,20 @@ def plan(tier, seed):
         shards.append({'name': f'reent{p}', 'mode': 'nrt', 'kind': 'reent',
                        'first_case': f, 'n': n, 'secs': secs,
                        'hard_timeout': secs + 150})
-    for p, (f, n) in enumerate(split(9000 if q else 1_500_000, 2)):
+    # thorough stays at 16 shards (one wave): the single effects shard also
+    # runs the (short) meta checks
+    for p, (f, n) in enumerate(split(18000 if q else 900_000, 2 if q else 1)):
         shards.append({'name': f'fx{p}', 'mode': 'nrt', 'kind': 'fx',
-                       'first_case': f, 'n': n, 'secs': secs,
+                       'first_case': f, 'n': n, 'secs': secs, 'with_meta': not q,
                        'hard_timeout': secs + 150})
-    shards.append({'name': 'meta', 'mode': 'nrt', 'kind': 'meta', 'first_case': 0,
-                   'n': 1, 'secs': secs, 'hard_timeout': secs + 150})
+    if q:
+        shards.append({'name': 'meta', 'mode': 'nrt', 'kind': 'meta',
+                       'first_case': 0, 'n': 1, 'secs': secs,
+                       'hard_timeout': secs + 150})
+        # quick has more shards than cores: the reent shards (threads, sleeps:
+        # the only ones that take their whole time budget on a busy machine)
+        # start first, the others take seconds
+        shards.sort(key=lambda s: s['kind'] != 'reent')
     return shards
 
 
@@ -1312,6 +1325,8 @@ def run_shard(spec, acc):
         run_reent(spec, acc)
     elif kind == 'fx':
         from vf import c15_effects as fx
+        if spec['shard'].get('with_meta'):
+            run_meta(spec, acc)
         fx.run(spec, acc, _op_entries(), _apply_entry, _selector_call,
                time_limit, Timeout, iter_cases, case_rng, h64)
     else:
